@@ -531,7 +531,7 @@ func c02Build(in c02In) *c02Built {
 			next.ServeHTTP(w, r)
 		})
 	})
-	if len(c02Cache) > 20000 {
+	if len(c02Cache) > 300 {
 		c02Cache = map[string]*c02Built{}
 	}
 	c02Cache[string(kb)] = b
